@@ -101,7 +101,8 @@ class Result:
 
 
 def run_inprocess(argv: list[str], *, stdin_bytes: bytes | None, chunks: list[int] | None = None,
-                  stdin_closed: bool = False, out_limit: int | None = None, out_err: int = errno.EPIPE, out_short: bool = False, out_piece: int | None = None) -> Result:
+                  stdin_closed: bool = False, out_limit: int | None = None, out_err: int = errno.EPIPE, out_short: bool = False, out_piece: int | None = None,
+                  stack_room: int | None = None) -> Result:
     from nix_manipulator.cli.main import main
 
     res = Result()
@@ -117,9 +118,19 @@ def run_inprocess(argv: list[str], *, stdin_bytes: bytes | None, chunks: list[in
     old = sys.stdin, sys.stdout, sys.stderr
     sys.stdin, sys.stdout, sys.stderr = stdin, stdout, stderr
     res.exc = None
+    old_limit = sys.getrecursionlimit()
     try:
         try:
-            rc = main(argv)
+            if stack_room is not None:
+                # resource fault: the interpreter stack has room for `stack_room` more frames (a deeply nested
+                # document then overflows it inside the library)
+                import inspect
+
+                sys.setrecursionlimit(len(inspect.stack(0)) + stack_room)
+            try:
+                rc = main(argv)
+            finally:
+                sys.setrecursionlimit(old_limit)
             status = 0 if rc is None else (rc if isinstance(rc, int) else 1)
         except SystemExit as e:
             code = e.code
@@ -382,6 +393,16 @@ def generate(seed: int, tier: str) -> dict:
         fault = {"kind": "stdin_closed"}
     elif fr < 0.26:
         fault = {"kind": "stdout", "err": rng.choice(["EPIPE", "ENOSPC", "EFBIG"]), "at": rng.choice([0, 0, 1, 2, 5, 17, 100]), "short": rng.random() < 0.4}
+    elif 0.34 <= fr < 0.40:
+        # a deeply nested document and little room on the interpreter stack
+        depth = rng.choice([40, 80, 110])
+        deep = "(" * depth + str(seed % 9000 + 1000) + ")" * depth
+        if rng.random() < 0.4:
+            deep = " ++ ".join("a%d" % i for i in range(depth // 2))
+        text = (deep + "\n") if cmd[0] == "test" or rng.random() < 0.3 else "{\n  a = %s;\n}\n" % deep
+        data = text.encode("utf-8")
+        kind = "deep"
+        fault = {"kind": "stack_limit", "room": rng.choice([60, 100, 200, 400, 1000])}
     elif fr < 0.34 and cmd[0] != "test":
         # (`nima test` answers with a three-byte `print`, which python's own text layer hands to the raw stream)
         # not an error at all: stdout takes the bytes a few at a time; the contract is the fault-free one
@@ -445,6 +466,7 @@ def execute(case: dict, *, root: str | None = None, subprocess_check: bool = Fal
             if out_short:
                 stats["fault:stdout_short_write"] = 1
         out_piece = fault["piece"] if fkind == "stdout_piecewise" else None
+        stack_room = fault["room"] if fkind == "stack_limit" else None
         if out_piece:
             stats["fault:stdout_piecewise"] = 1
 
@@ -452,7 +474,7 @@ def execute(case: dict, *, root: str | None = None, subprocess_check: bool = Fal
         # channel 1: stdin
         if fkind not in ("missing_file", "directory"):
             runs["stdin"] = run_inprocess(list(cmd), stdin_bytes=data, chunks=case["chunks"],
-                                          stdin_closed=(fkind == "stdin_closed"), out_limit=out_limit, out_err=out_err, out_short=out_short, out_piece=out_piece)
+                                          stdin_closed=(fkind == "stdin_closed"), out_limit=out_limit, out_err=out_err, out_short=out_short, out_piece=out_piece, stack_room=stack_room)
             stats["invocations"] += 1
             stats["stdin_reads"] = runs["stdin"].stdin_reads
         # channel 2: -f FILE
@@ -462,7 +484,7 @@ def execute(case: dict, *, root: str | None = None, subprocess_check: bool = Fal
                 fpath = os.path.join(root, "does-not-exist.nix")
             elif fkind == "directory":
                 fpath = root
-            runs["file"] = run_inprocess(_argv(cmd, fpath, case["flag_first"]), stdin_bytes=b"", out_limit=out_limit, out_err=out_err, out_short=out_short, out_piece=out_piece)
+            runs["file"] = run_inprocess(_argv(cmd, fpath, case["flag_first"]), stdin_bytes=b"", out_limit=out_limit, out_err=out_err, out_short=out_short, out_piece=out_piece, stack_room=stack_room)
             stats["invocations"] += 1
 
         usage = _arg_problem(cmd)
@@ -498,6 +520,21 @@ def execute(case: dict, *, root: str | None = None, subprocess_check: bool = Fal
                 want_out, want_status = b"", None  # any non-zero
                 stats["edit:refused"] = 1
 
+        if fkind == "stack_limit":
+            # the stack may or may not suffice: the fault-free answer, or the answer for "the library could not do it"
+            # (`Fail` / 1 for test; non-zero and nothing on stdout for set / rm) - never an escaping exception from
+            # `test`, never a partial document
+            for ch, r in runs.items():
+                f = dict(facts, channel=ch, room=stack_room)
+                normal = (want_status is not None and r.status == want_status and r.stdout == want_out) or (want_status is None and r.status != 0 and not r.stdout)
+                if not normal:
+                    stats["fault_fired:stack_limit"] = stats.get("fault_fired:stack_limit", 0) + 1
+                if cmd[0] == "test":
+                    if r.exc is not None or not (normal or (r.status == 1 and r.stdout == b"Fail\n")):
+                        viols.append(Violation("C16.stack_overflow_not_fail", "nima test with %d frames of stack: status %d, stdout %r, escaping exception %s" % (stack_room, r.status, r.stdout[:40], r.exc), None, f))
+                elif not normal and not (r.status != 0 and not r.stdout):
+                    viols.append(Violation("C16.error_stdout" if r.stdout else "C16.error_exit0", "%s with %d frames of stack: status %d, stdout %r" % (cmd[0], stack_room, r.status, r.stdout[:60]), None, f))
+            return viols, stats, [digest([case["cmd"], case["text_kind"], fkind, stack_room, len(text)])]
         for ch, r in runs.items():
             f = dict(facts, channel=ch)
             if fkind == "stdout":
